@@ -6,9 +6,16 @@
   with `NotFinite` before the first iteration, or its statistics are those of the exit block at a loop
   head — `iterations = k ≤ max_iter`, `status` = the generated chain `statusChainOcp` evaluated at that
   head, `ε` = the generated criterion `calcErrorStopCritOcp` of the final (current) iterate.
+  `ocp_no_progress_counter`: the counter handed to the chain is `npRun` of the "storage vector unchanged" flags
+  between consecutive progress callbacks.  `ocp_result_meaning_fuelOK`: the same facts over ordered fields
+  with the explicit fuel bound `FuelOK` instead of `fuelOut = false`.
+  All statements describe the real solver for `max_no_progress ≥ 1` only (at 0 the C++ divides by zero:
+  `Props/C06.no_progress_counts_consecutive_guarded`).
 -/
 import Alpaqa.Proofs.OcpLoop
 import Alpaqa.Proofs.OcpLs
+import Alpaqa.Proofs.OcpFuel
+import Alpaqa.Proofs.OcpExample
 
 namespace Alpaqa.Props.C06_Ocp
 open Alpaqa Alpaqa.Ocp Alpaqa.Gen
@@ -152,7 +159,7 @@ theorem flagsNF_length (cur : Iterate α) (cbs : List (Callback α)) :
 def NpInv (pr : Params α) (s : St α D) : Prop :=
   s.noProgress = Props.C06.npRun pr.maxNoProgress 0 0 (flagsNF s.curr s.cbs) ∧ s.cbs.length = s.k
 
-theorem headStep_cbs' (P : Prob α) (pr : Params α) (stop : Nat → Bool) (oot : Bool) (s : St α D) :
+theorem headStep_cbs_eq (P : Prob α) (pr : Params α) (stop : Nat → Bool) (oot : Bool) (s : St α D) :
     (headStep P pr stop oot s).1.cbs = s.cbs := by
   unfold headStep; simp only []; split <;> rfl
 
@@ -200,7 +207,7 @@ theorem mainLoop_np (O : Oracles α) (dir : Dir D α) (P : Prob α) (pr : Params
   | succ f ih =>
     unfold mainLoop
     have hc := headStep_curr P pr stop oot s
-    have hcb := headStep_cbs' P pr stop oot s
+    have hcb := headStep_cbs_eq P pr stop oot s
     have hsnd := headStep_snd P pr stop oot s
     have hh : NpInv pr (headStep P pr stop oot s).1 := by
       unfold NpInv; rw [hc.1, hcb, hc.2.2.1, hc.2.2.2.2]; exact h
@@ -269,5 +276,82 @@ theorem ocp_no_progress_counter (O : Oracles α) (dir : Dir D α) (P : Prob α) 
       (cbFlags (mainLoop O dir P pr stop oot u0 y mu errz0 (pr.maxIter + 2) s).callbacks) 0
     rw [← h1] at hle
     omega
+
+/-! ### With the explicit fuel bound (linearly ordered fields) -/
+section field
+variable {α D : Type} [Field α] [LinearOrder α] [IsStrictOrderedRing α] [RealLike α]
+
+theorem tauSentinelOK : TauSentinelOK α := by
+  constructor <;> simp [bne_iff_ne] <;> norm_num
+
+/-- **Iteration count, status and residual under `FuelOK`** (no `fuelOut` hypothesis): a solve that does
+    not throw reports `iterations ≤ max_iter`; if the loop was entered, the status is the generated chain at
+    the last head evaluated with the reported ε, ε is the generated criterion of the final iterate, and
+    `Converged ⇔ ε ≤ tolerance'`. -/
+theorem ocp_result_meaning_fuelOK (O : Oracles α) (dir : Dir D α) (P : Prob α) (d0 : D)
+    (pr : Params α) (stop : Nat → Bool) (oot : Bool) (u0 y mu errz0 gV gQ : Vec α) (gS e0 : α)
+    (nL nτ : Nat) (hp : FuelOK pr nL nτ)
+    (hex : (run O dir P d0 pr stop oot u0 y mu errz0 gV gQ gS e0).exc = .none) :
+    (run O dir P d0 pr stop oot u0 y mu errz0 gV gQ gS e0).stats.iterations ≤ pr.maxIter ∧
+    ((run O dir P d0 pr stop oot u0 y mu errz0 gV gQ gS e0).callbacks ≠ [] →
+      (∃ (it : Iterate α) (k np tick : Nat),
+        (run O dir P d0 pr stop oot u0 y mu errz0 gV gQ gS e0).final = some it ∧ Good O P it ∧
+        (run O dir P d0 pr stop oot u0 y mu errz0 gV gQ gS e0).stats.iterations = k ∧
+        epsOf P pr it = some (run O dir P d0 pr stop oot u0 y mu errz0 gV gQ gS e0).stats.eps ∧
+        (run O dir P d0 pr stop oot u0 y mu errz0 gV gQ gS e0).stats.status =
+          statusChainOcp pr.tolerance pr.maxIter pr.maxNoProgress k
+            (run O dir P d0 pr stop oot u0 y mu errz0 gV gQ gS e0).stats.eps np oot (stop tick) ∧
+        (run O dir P d0 pr stop oot u0 y mu errz0 gV gQ gS e0).stats.status ≠ .Busy) ∧
+      ((run O dir P d0 pr stop oot u0 y mu errz0 gV gQ gS e0).stats.status = .Converged ↔
+        (run O dir P d0 pr stop oot u0 y mu errz0 gV gQ gS e0).stats.eps ≤ Props.C06.effTol pr.tolerance)) := by
+  have hfuel := run_fuelOut_false O dir P d0 pr stop oot u0 y mu errz0 gV gQ gS e0 nL nτ hp
+  refine ⟨ocp_iterations_le_max_iter O dir P d0 pr stop oot u0 y mu errz0 gV gQ gS e0 tauSentinelOK hfuel hex,
+    fun hcb => ?_⟩
+  have h := ocp_status_and_eps O dir P d0 pr stop oot u0 y mu errz0 gV gQ gS e0 tauSentinelOK hfuel hex hcb
+  refine ⟨h, ?_⟩
+  obtain ⟨it, k, np, tick, _, _, _, _, hst, _⟩ := h
+  rw [hst]
+  exact ocp_converged_iff _ _ _ _ _ _ _ _
+
+end field
+
+/-! ### Non-vacuity on concrete runs of `Ocp.run` (`Proofs/OcpExample`) -/
+section run_examples
+open Alpaqa.Ocp.Example
+
+theorem fuelOK_prN : FuelOK prN 23 9 :=
+  ⟨by norm_num [prN, prA], by norm_num [prN, prA], by norm_num [prN, prA], fun _ => by norm_num [prN, prA],
+    by norm_num [prN, prA], by norm_num [prN, prA]⟩
+
+/-- statuses reached by the example runs: `Converged` (k = 1 and k = 2), `MaxIter` (budget 0 and 2),
+    `Interrupted`, `NoProgress`; an unsupported criterion throws -/
+example : (rA .ProjGradNorm none).stats.status = .Converged ∧ (rA .ProjGradNorm none).stats.iterations = 1 ∧
+    (rC .ProjGradNorm none).stats.status = .Converged ∧ (rC .ProjGradNorm none).stats.iterations = 2 ∧
+    rM.stats.status = .MaxIter ∧ rM.stats.iterations = 0 ∧
+    (rL none).stats.status = .MaxIter ∧ (rL none).stats.iterations = 2 ∧
+    (rA .ProjGradNorm (some 25)).stats.status = .Interrupted ∧
+    rN.stats.status = .NoProgress ∧ rN.stats.iterations = 3 ∧
+    (rA .ApproxKKT none).exc = .invalidArgument ∧ (rA .ApproxKKT none).wrote = false := by
+  decide +kernel
+
+/-- `ocp_result_meaning_fuelOK` instantiated on the `NoProgress` run -/
+example : rN.stats.iterations ≤ prN.maxIter :=
+  (ocp_result_meaning_fuelOK OA dirZero PA () prN (stopAt none) false [1, 1/2] [] [] [] [] [] 0 0 23 9
+    fuelOK_prN (by decide +kernel)).1
+
+/-- `ocp_no_progress_counter` instantiated: the direction oracle `q = 0` with strictness 0 leaves the
+    iterate unchanged in every iteration; flags `[true, true, true]`, counter `3 > max_no_progress = 2` at the
+    head of iteration 3 -/
+example : cbFlags rN.callbacks = [true, true, true] ∧
+    rN.lastHead.map (fun h => (h.2.1, h.2.2.1, h.2.2.2.1)) = some (.NoProgress, 3, 3) := by
+  decide +kernel
+example : 3 = Props.C06.npRun prN.maxNoProgress 0 0 (cbFlags rN.callbacks) ∧
+    (prN.maxNoProgress < ((cbFlags rN.callbacks).reverse.takeWhile (· = true)).length) := by
+  have hl : rN.lastHead = some (rN.stats.eps, .NoProgress, 3, 3, 73) := by decide +kernel
+  have h := ocp_no_progress_counter OA dirZero PA () prN (stopAt none) false [1, 1/2] [] [] [] [] [] 0 0
+    _ _ _ _ _ hl
+  exact ⟨h.1, h.2.2.2.2.2.2 (by decide) rfl⟩
+
+end run_examples
 
 end Alpaqa.Props.C06_Ocp
